@@ -15,17 +15,34 @@ Proof.
   destruct (id_is_num c && first); [discriminate|]. eapply IH; eassumption.
 Qed.
 
-Lemma is_simple_id_chars s : is_simple_id s = true -> is_simple_chars s = true.
+(** what [is_simple_id] says in either variant: the loop accepts; in [Fix] also: not reserved *)
+Lemma is_simple_id_loop v s : is_simple_id v s = true -> s <> EmptyString /\ id_chars_ok s true = true.
 Proof.
-  destruct s as [|c r]; [discriminate|]. unfold is_simple_id, is_simple_chars. intros H.
+  unfold is_simple_id. destruct s as [|c r]; [discriminate|]. intros H. split; [discriminate|].
+  destruct v; [exact H|]. apply andb_true_iff in H. tauto.
+Qed.
+
+Lemma smt_reserved_same : smt_reserved_words = reserved_words.
+Proof. reflexivity. Qed.
+
+Lemma is_simple_id_fix_not_reserved s : is_simple_id Fix s = true -> is_reserved s = false.
+Proof.
+  unfold is_simple_id. destruct s as [|c r]; [discriminate|]. intros H. apply andb_true_iff in H.
+  destruct H as [H _]. apply negb_true_iff in H. unfold is_reserved. now rewrite <- smt_reserved_same.
+Qed.
+
+Lemma is_simple_id_chars v s : is_simple_id v s = true -> is_simple_chars s = true.
+Proof.
+  intros H0. destruct (is_simple_id_loop v s H0) as [Hne H].
+  destruct s as [|c r]; [congruence|]. unfold is_simple_chars.
   rewrite (id_chars_ok_forall _ _ H). cbn [id_chars_ok] in H.
   destruct (id_char_ok c); cbn [negb] in H; [|discriminate].
   rewrite <- id_num_digit. destruct (id_is_num c); cbn [andb] in H |- *; [discriminate|reflexivity].
 Qed.
 
-Lemma is_simple_id_first s c r : s = String c r -> is_simple_id s = true -> Ascii.eqb c c_bar = false.
+Lemma is_simple_id_first v s c r : s = String c r -> is_simple_id v s = true -> Ascii.eqb c c_bar = false.
 Proof.
-  intros -> H. unfold is_simple_id in H. cbn [id_chars_ok] in H.
+  intros -> H0. destruct (is_simple_id_loop v _ H0) as [_ H]. cbn [id_chars_ok] in H.
   destruct (id_char_ok c) eqn:Ec; cbn [negb] in H; [|discriminate]. now apply id_char_not_bar.
 Qed.
 
@@ -47,18 +64,28 @@ Proof.
 Qed.
 
 (** [escape_sound]: every name made of admissible characters that is not a reserved word is
-    written as ONE symbol token that denotes exactly that name. *)
-Lemma escape_sound_lemma n :
-  name_chars_ok n = true -> is_reserved n = false -> symbol_name (escape_id n) = Some n.
+    written as ONE symbol token that denotes exactly that name - in the repaired variant [Fix]
+    without the exception. *)
+Lemma escape_sound_gen v n :
+  name_chars_ok n = true -> (v = Cur -> is_reserved n = false) -> symbol_name (escape_id v n) = Some n.
 Proof.
-  intros Hc Hr. unfold escape_id. destruct (is_simple_id n) eqn:Es.
-  - destruct n as [|c r]; [discriminate|]. unfold symbol_name.
-    rewrite (is_simple_id_first _ c r eq_refl Es).
-    unfold is_simple_symbol. rewrite (is_simple_id_chars _ Es), Hr. reflexivity.
+  intros Hc Hr. unfold escape_id. destruct (is_simple_id v n) eqn:Es.
+  - assert (Hres : is_reserved n = false).
+    { destruct v; [now apply Hr | now apply is_simple_id_fix_not_reserved]. }
+    destruct n as [|c r]; [discriminate|]. unfold symbol_name.
+    rewrite (is_simple_id_first v _ c r eq_refl Es).
+    unfold is_simple_symbol. rewrite (is_simple_id_chars v _ Es), Hres. reflexivity.
   - change (String.append "|" (String.append n "|")) with (String c_bar (String.append n "|")).
     unfold symbol_name. change (Ascii.eqb c_bar c_bar) with true. cbv iota.
     now apply quoted_body_app.
 Qed.
+
+Lemma escape_sound_lemma v n :
+  name_chars_ok n = true -> is_reserved n = false -> symbol_name (escape_id v n) = Some n.
+Proof. intros Hc Hr. apply escape_sound_gen; auto. Qed.
+
+Lemma escape_sound_fix n : name_chars_ok n = true -> symbol_name (escape_id Fix n) = Some n.
+Proof. intros Hc. apply escape_sound_gen; [assumption | discriminate]. Qed.
 
 (** ** numerals *)
 
